@@ -949,6 +949,13 @@ def run(ctx):
     if not g.edges:
         raise RuntimeError("empty state graph")
     labels, lab_ix, ops_seen = [], {}, {}
+    # transitions into states beyond the state constraint (MaxBonds) are not part of the graph
+    known = set(g.state_text)
+    dropped = len(g.edges)
+    g.edges = [e for e in g.edges if e[0] in known and e[2] in known]
+    dropped -= len(g.edges)
+    if dropped:
+        ctx.cov["hist_transitions_beyond_constraint"] = dropped
     for (_s, lab, _d) in g.edges:
         if lab not in lab_ix:
             _name, args = dot.parse_label(lab)
